@@ -111,7 +111,7 @@ def execT (w : Weights) (P : Prims) : Code → Env → Option Tally
             (execsT w P body (bindElems binders vals env)).map (Tally.tick (v.cost w)) else none)
         else (guardPushT w P env none false push).map (Tally.tick (v.cost w))
       | _ => none
-  | .structNamed _ v path fields rest body push, env =>
+  | .structNamed _ v path fields _ rest body push, env =>
     (evalV P env v).bind fun x =>
       match x.v with
       | .adt ctor names _ =>
@@ -187,7 +187,7 @@ def Code.passCost (w : Weights) : Code → Nat
   | .seq cs => cs.passCost w
   | .simple _ v _ _ | .string _ v _ _ _ | .cmp _ v _ _ _ | .unitVariant _ v _ _ | .range _ v _ _
   | .regex _ v _ _ | .like _ v _ _ | .closure _ v _ _ | .mapLen _ v _ _ | .set v _ _ _ => v.cost w
-  | .enumTuple _ v _ _ body _ | .structNamed _ v _ _ _ body _ | .tuple v _ body | .slice v _ body _ =>
+  | .enumTuple _ v _ _ body _ | .structNamed _ v _ _ _ _ body _ | .tuple v _ body | .slice v _ body _ =>
     v.cost w + body.passCost w
   | .mapGet _ v _ body _ => v.cost w + body.passCost w
 def Codes.passCost (w : Weights) : Codes → Nat
